@@ -134,6 +134,9 @@ func (c *Ctx) debugErrLost() {
 // fresh error non-nil unless the error was returned, stored, logged or handed on first.
 func (c *Ctx) checkErrNotDropped(rule string, rels ...string) {
 	L := c.L
+	if c.Thorough() {
+		rels = nil // thorough tier: every package of the module
+	}
 	L.Rule(rule, "after a test has established that the error just returned by a call is non-nil, control does not enter another iteration of an enclosing loop before the error is returned, stored, logged or passed on (a `break` that only leaves an inner loop lets the next iteration overwrite the error); stop flags set with the error and loop conditions on the error itself are followed")
 	nTests := 0
 	for _, fn := range c.srcFuncs(rels...) {
